@@ -414,6 +414,10 @@ class Channel(ClosingContextManager):
         """
         # in many cases, the channel will not still be open here.
         # that's fine.
+        if self.closed:
+            # ...but once we have sent CLOSE nothing may follow on this
+            # channel (the peer has released, or is about to release, it).
+            return
         m = Message()
         m.add_byte(cMSG_CHANNEL_REQUEST)
         m.add_int(self.remote_chanid)
